@@ -42,6 +42,18 @@ def in_scope(state, op):
     return True
 
 
+def auto_out_of_scope(pre, op, post):
+    """auto_batch_size_ through a nested handle: out of scope when the child's new batch size no longer extends the batch
+    size of the node holding it (Props/C01.lean InScope: handleOk of the computed size)"""
+    if op[0] != "auto" or not op[1]:
+        return False
+    parent = O.get_at(pre, op[1][:-1])
+    child = O.get_at(post, op[1])
+    if parent is None or child is None or child[0] != "n":
+        return False
+    return child[1][:len(parent[1])] != parent[1]
+
+
 def run_history(run, rng, hid, maxlen, steps):
     bs = O.gen_bs(rng)
     dev = rng.choice([None, None, 0, 1])
@@ -69,6 +81,9 @@ def run_history(run, rng, hid, maxlen, steps):
         except Exception as e:  # noqa
             run.oracle_fail("walk", case, f"the tree cannot be walked after {op[0]}: {type(e).__name__}: {str(e)[:120]}", "unobservable:" + op[0])
             return
+        if auto_out_of_scope(pre, op, post):
+            run.count("ops", "auto:out-of-scope")
+            return        # the documented exclusion: the tree is legitimately incoherent from here on
         run.case(json.dumps([pre, op]))
         run.count("ops", op[0])
         run.count("outcome", out[0] + (":" + out[1] if out[0] == "err" else ""))
@@ -131,17 +146,17 @@ def replay_file(run, path, quiet=False):
 def main():
     run = Run("C01")
     run.rule = ("random histories of 1..25 mutating calls (set of well/ill-shaped tensors and nested tensordicts incl. auto-created keys, batch_size and names "
-                "assignment, del_, rename_key_, create_nested, clear, pop, popitem, setdefault, refine_names, update with dict payloads; auto_batch_size_ on the root) issued on the root or through a nested handle, on trees of depth <= 3, batch rank 0-3 with "
+                "assignment, del_, rename_key_, create_nested, clear, pop, popitem, setdefault, refine_names, update with dict or tensordict payloads, exclude / flatten_keys / unflatten_keys in place; auto_batch_size_ on the root) issued on the root or through a nested handle, on trees of depth <= 3, batch rank 0-3 with "
                 "dims in {0,1,2,3}, cpu/meta/no device, named/unnamed; a case is one (pre-state, op) pair")
     run.trusted += [
         "Model/C01Coherence.lean: hand transcription of _validate_value/_set_tuple/_batch_size_setter/_check_new_batch_size/names setter/_rename_subtds/"
-        "rename_key_/create_nested/_set_max_batch_size (each function cites its source); tied to the code by the per-step correspondence of this check",
+        "rename_key_/create_nested/_set_max_batch_size/_exclude/_flatten_keys_inplace/unflatten_keys (each function cites its source); tied to the code by the per-step correspondence of this check",
         "harness/c01_ops.py: generators, snapshot, walk_coherent (the oracle)",
     ]
     run.assumptions += [
         "values of leaves are not modelled (C02/C03/C07); `.to(device)` is modelled as: result on the requested device, except out of the meta device (raises)",
         "out of scope (property text): shrinking / altering a child's batch size through a direct handle so that it no longer extends its parent's",
-        "locking, memmap/shared state are outside the model; lazy stacks / tensorclass / non-tensor entries / in-place and index writes / update(update_batch_size=True) are oracle-only",
+        "locking, memmap/shared state are outside the model; lazy stacks / tensorclass / non-tensor entries / in-place and index writes / update(update_batch_size=True) / select in place are oracle-only",
     ]
     run.build_and_audit(["TdVerif.Props.C01"])
     drv = run.driver()
